@@ -6,8 +6,7 @@
 (* The micro-steps inside a stage are internal (no event).  The P-layer invariants are checked on the       *)
 (* matched states (cfg), i.e. on the states the real programs went through.                                 *)
 EXTENDS Output, Json, IOUtils, SequencesExt
-CONSTANT TraceDoc      \* cfg: TraceDoc <- LoadedDoc; a substituted constant is evaluated once at start-up, whereas a plain
-                       \* definition `Doc == JsonDeserialize(..)` is re-parsed at every reference (measured: quadratic cost)
+CONSTANT TraceDoc      \* cfg: TraceDoc <- LoadedDoc (the recorded traces)
 VARIABLES tid, l
 LoadedDoc == JsonDeserialize(IOEnv.TRACE_FILE)
 Doc == TraceDoc
@@ -15,7 +14,9 @@ Traces == Doc.traces
 TNBk == Doc.nbk
 TRuns == Doc.runs
 VarOf(e) == [prog |-> e.var.prog, on |-> ToSet(e.var.on)]
-TVariants == UNION { {VarOf(Traces[t].events[i]) : i \in 1..Len(Traces[t].events)} : t \in 1..Len(Traces) }
+\* the variants occurring in the document, listed by the recorder (Doc.variants): only the range of NextRun's choice; a
+\* comprehension over all events of all traces here costs a JSON parse per reference at start-up (measured: quadratic)
+TVariants == { [prog |-> Doc.variants[i].prog, on |-> ToSet(Doc.variants[i].on)] : i \in 1..Len(Doc.variants) }
 TInits == {}
 TNone == {}
 TTargets == {"out", "out2"}
